@@ -60,18 +60,30 @@ def isTopRow (ops : List Op) (obj : ObjId) (o : Op) : Bool :=
 def textIdx (wf : Op → Nat) (ops : List Op) (obj : ObjId) (o : Op) : Option Nat :=
   if isTopRow ops obj o then some (wf o) else none
 
+/-- position of the first row with the given id -/
+def idxOfId (id : OpId) : List Op → Option Nat
+  | [] => none
+  | o :: rest => if o.id == id then some 0 else (idxOfId id rest).map (· + 1)
+
+/-- the row with the given id and its position -/
+def findRow (rows : List Op) (id : OpId) : Option (Nat × Op) :=
+  match idxOfId id rows with
+  | some pos => (rows[pos]?).map (fun o => (pos, o))
+  | none => none
+
 /-- `seek_list_opid_fast`: position of the row, prefix sum of the index column before it -/
 def seekFast (wf : Op → Nat) (ops : List Op) (obj : ObjId) (id : OpId) : Option FoundOpId :=
   let rows := objRows ops obj
-  match rows.findIdx? (fun o => o.id == id), rows.find? (fun o => o.id == id) with
-  | some pos, some o =>
+  match findRow rows id with
+  | some (pos, o) =>
     let index := ((rows.take pos).map (fun r => (textIdx wf ops obj r).getD 0)).sum
-    some ⟨o, pos, index, (textIdx wf ops obj o).isSome⟩
-  | _, _ => none
+    -- `visible`: the op's ELEMENT has a visible value (a mark op is no element)
+    some ⟨o, pos, index, !o.isMark && (match o.elem with | some e => !(elemRegOps ops obj e).isEmpty | none => false)⟩
+  | none => none
 
-/-- the groups `OpsFoundIter` yields over the rows without marks: (end position, visible ops) of every
-    element that has visible ops -/
-def groupsFrom (ops : List Op) (obj : ObjId) : Nat → List Op → List (Nat × List Op)
+/-- the groups `OpsFoundIter` yields over the rows without marks: (start position, end position, visible
+    ops) of every element that has visible ops -/
+def groupsFrom (ops : List Op) (obj : ObjId) : Nat → List Op → List (Nat × Nat × List Op)
   | _, [] => []
   | pos, e :: rest =>
     let n := 1 + (updateRows ops obj e.id).length
@@ -79,28 +91,28 @@ def groupsFrom (ops : List Op) (obj : ObjId) : Nat → List Op → List (Nat × 
     else
       match elemRegOps ops obj e.id with
       | [] => groupsFrom ops obj (pos + n) rest
-      | reg => (pos + n, reg) :: groupsFrom ops obj (pos + n) rest
+      | reg => (pos, pos + n, reg) :: groupsFrom ops obj (pos + n) rest
 
-def seekSlowGo (wf : Op → Nat) (o : Op) (pos : Nat) : List (Nat × List Op) → Nat → Option FoundOpId
-  | [], _ => none
-  | (endPos, reg) :: rest, index =>
-    if endPos > pos then some ⟨o, pos, index, reg.any (fun r => r.id == o.id)⟩
-    else seekSlowGo wf o pos rest (index + (match reg.getLast? with | some l => wf l | none => 0))
+/-- the loop of `seek_list_opid_slow`: the first element with visible values that ends after the op; it is
+    the op's own element iff it starts at or before the op.  No such element: the index is the length. -/
+def seekSlowGo (wf : Op → Nat) (o : Op) (pos : Nat) : List (Nat × Nat × List Op) → Nat → Option FoundOpId
+  | [], index => some ⟨o, pos, index, false⟩
+  | (startPos, endPos, reg) :: rest, index =>
+    if endPos > pos then some ⟨o, pos, index, decide (startPos ≤ pos)⟩
+    else seekSlowGo wf o pos rest (index + lastW wf reg)
 
 /-- `seek_list_opid_slow` -/
 def seekSlow (wf : Op → Nat) (ops : List Op) (obj : ObjId) (id : OpId) : Option FoundOpId :=
-  let rows := objRows ops obj
-  match rows.findIdx? (fun o => o.id == id), rows.find? (fun o => o.id == id) with
-  | some pos, some o => seekSlowGo wf o pos (groupsFrom ops obj 0 (rgaOrder ops obj)) 0
-  | _, _ => none
+  match findRow (objRows ops obj) id with
+  | some (pos, o) => seekSlowGo wf o pos (groupsFrom ops obj 0 (rgaOrder ops obj)) 0
+  | none => none
 
 /-- `seek_list_opid`: `historical = false` ⇒ fast path, `debug_assert_eq!(fast, slow)` -/
 def seekListOpid (wf : Op → Nat) (historical : Bool) (ops : List Op) (obj : ObjId) (id : OpId) :
     Outcome CursorErr (Option FoundOpId) :=
   if historical then .ok (seekSlow wf ops obj id)
   else
-    -- `get_op_id_pos` searches the whole op set; an op of another object trips `assert!(obj_range.contains(&pos))`
-    if (ops.any (fun o => o.id == id && !o.isDel && o.obj != obj)) then .panic .assertFailed else
+    -- an op of another object: both paths answer `None` (db03ef151)
     let f := seekFast wf ops obj id
     if f == seekSlow wf ops obj id then .ok f else .panic .assertFailed
 
